@@ -18,6 +18,8 @@ structure Good (fx : Facts) : Prop where
   wrap : fx.wrapDefault = true
   mainOwn : fx.mainOwnOnly = true
   depsPending : fx.depsPendingOnly = true
+  retry : fx.funcRetry = true
+  firstErr : fx.firstErrorDecides = true
 
 /-- invariant of the states a session goes through -/
 structure WF (s : State) : Prop where
